@@ -7,7 +7,7 @@ From Texel Require Import Chess.Types Chess.Position Chess.PositionSpec Chess.Po
   Chess.PositionSources Chess.Fen Chess.Spec Chess.BitBoard Chess.MoveGen Chess.MoveGenWF Chess.MoveGenProofs
   Chess.BitBoardProofs Chess.RayProofs Chess.SliderProofs Chess.AttackProofs Chess.PawnProofs Chess.PseudoProofs
   Chess.MakeSpecProofs gen.BitBoardTables
-  RevGen.RevGen RevGen.RevFacts RevGen.RevAbs RevGen.RevRestore RevGen.RevValid RevGen.RevCand RevGen.RevRaw RevGen.RevLegal.
+  RevGen.RevGen RevGen.RevFacts RevGen.RevAbs RevGen.RevRestore RevGen.RevValid RevGen.RevCand RevGen.RevRaw RevGen.RevLegal RevGen.RevPawn.
 Import ListNotations.
 Local Open Scope N_scope.
 
@@ -165,4 +165,222 @@ Proof.
   - fold f. change (getPiece p f) with pc. rewrite Hnp. discriminate.
 Qed.
 
+(** ** the un-castle clause of genMovesNoUndoInfo *)
+Section Raw.
+Variable kside : bool.
+Hypothesis HS : CastleSpec kside.
+Let MF : MoveFacts p m := castle_moveFacts kside HS.
+
+Lemma Hf : f = k0.
+Proof. destruct (castle_N kside HS) as (Hm & _). unfold f. rewrite Hm. reflexivity. Qed.
+Lemma Ht : t = if kside then k0 + 2 else k0 - 2.
+Proof. destruct (castle_N kside HS) as (Hm & _). unfold t. rewrite Hm. reflexivity. Qed.
+Lemma Hpc : pc = if w then WKING else BKING.
+Proof. destruct (castle_N kside HS) as (_ & HK & _). unfold pc. rewrite Hf. exact HK. Qed.
+Lemma k0_val : k0 = 4 \/ k0 = 60.
+Proof. unfold k0, E1, E8. destruct w; auto. Qed.
+
+Lemma boardQ_castle :
+  sqsQ = if kside
+         then updN (k0 + 2) pc (updN k0 EMPTY (updN (k0 + 1) (if w then WROOK else BROOK) (updN (k0 + 3) EMPTY sqs)))
+         else updN (k0 - 2) pc (updN k0 EMPTY (updN (k0 - 1) (if w then WROOK else BROOK) (updN (k0 - 4) EMPTY sqs))).
+Proof.
+  pose proof Hf as Ef. pose proof Ht as Et. pose proof Hpc as Ep. pose proof k0_val as Hk.
+  assert (HKp : isKingPiece pc = true) by (rewrite Ep; destruct w; reflexivity).
+  unfold sqsQ, q, pc, sqs, f, t, w in *.
+  destruct (boardQ zk p m Hrev MF) as [_ _ Hkk|Ew _ _ _ _ _ _ _|Eb _ _ _ _ _ _ _|_ E2 _ _ _ _ _ Hq|_ E2 _ _ _ _ _ Hq].
+  - exfalso. destruct (Hkk HKp) as (A & B). rewrite Ef, Et in A, B. destruct kside; lia.
+  - exfalso. rewrite Ew in HKp. discriminate.
+  - exfalso. rewrite Eb in HKp. discriminate.
+  - rewrite Ef, Et in E2. destruct kside; [|exfalso; lia]. rewrite Hq, Ef, Et. reflexivity.
+  - rewrite Ef, Et in E2. destruct kside; [exfalso; lia|]. rewrite Hq, Ef, Et. reflexivity.
+Qed.
+
+Lemma at_nthP b x y : on_board x y = true -> at_ b x y = nthP b (sq_of x y).
+Proof. intro H. destruct (sq_of_coords x y H) as (_ & _ & _ & Hi). unfold at_, nthP. rewrite H, Hi. reflexivity. Qed.
+
+Lemma lenS : length sqs = 64%nat.
+Proof. apply (Hlen zk p Hrev). Qed.
+
+(** Q agrees with P away from the four squares of the castling *)
+Lemma at_Q_other x y :
+  (on_board x y = true -> sq_of x y <> k0 /\ sq_of x y <> (if kside then k0 + 1 else k0 - 1) /\
+                          sq_of x y <> (if kside then k0 + 2 else k0 - 2) /\ sq_of x y <> (if kside then k0 + 3 else k0 - 4)) ->
+  at_ sqsQ x y = at_ sqs x y.
+Proof.
+  intro H. destruct (on_board x y) eqn:Hob; [|rewrite !at_off_board by exact Hob; reflexivity].
+  destruct (H eq_refl) as (A & B & C & D). destruct (sq_of_coords x y Hob) as (Hs & _).
+  rewrite !at_nthP by exact Hob. rewrite boardQ_castle. pose proof lenS as Hl.
+  destruct kside; rewrite !nthP_updN by (rewrite ?length_updN, Hl; lia);
+    repeat match goal with |- context [?a =? ?c] => destruct (N.eqb_spec a c); [exfalso; lia|] end; reflexivity.
+Qed.
+
+Lemma at_Q_val s v : s < 64 -> nthP sqsQ s = v -> at_ sqsQ (zf s) (zr s) = v.
+Proof. intros Hs <-. symmetry. apply (getPiece_at q s Hs). Qed.
+
+(** the four changed squares in Q *)
+Lemma Q_vals :
+  nthP sqsQ k0 = EMPTY /\ nthP sqsQ (if kside then k0 + 1 else k0 - 1) = (if w then WROOK else BROOK) /\
+  nthP sqsQ (if kside then k0 + 2 else k0 - 2) = pc /\ nthP sqsQ (if kside then k0 + 3 else k0 - 4) = EMPTY.
+Proof.
+  rewrite boardQ_castle. pose proof lenS as Hl. pose proof k0_val as Hk.
+  destruct kside; repeat split; rewrite !nthP_updN by (rewrite ?length_updN, Hl; lia);
+    repeat match goal with |- context [?a =? ?c] => destruct (N.eqb_spec a c); try (exfalso; lia) end; reflexivity.
+Qed.
+
+Lemma two_bits_empty a c occ : (N.land (N.lor (bit a) (bit c)) occ =? 0) = negb (N.testbit occ a) && negb (N.testbit occ c).
+Proof. rewrite land_lor_0, !land_bit_0. reflexivity. Qed.
+Lemma three_bits_empty a b c occ :
+  (N.land (N.lor (N.lor (bit a) (bit b)) (bit c)) occ =? 0) = negb (N.testbit occ a) && negb (N.testbit occ b) && negb (N.testbit occ c).
+Proof. rewrite land_lor_0, land_lor_0, !land_bit_0. reflexivity. Qed.
+
+Lemma occQ_empty s : nthP sqsQ s = EMPTY -> N.testbit (occupiedBB q) s = false.
+Proof.
+  intro H. unfold q. rewrite (occQ_bit zk EKZ p m Hrev MF s). fold q sqsQ. rewrite H. change (EMPTY =? EMPTY) with true. apply andb_false_r.
+Qed.
+
+Lemma kingSq_Q : kingSq q w = t.
+Proof.
+  pose proof (BOq zk EKZ p m Hrev MF) as BO. fold q in BO.
+  destruct Q_vals as (V0 & V1 & V2 & V3). pose proof Hpc as Ep. pose proof k0_val as Hk. pose proof Ht as Et.
+  assert (Ht64 : t < 64) by (rewrite Et; destruct kside; lia).
+  assert (Emk : mk_piece w King = if w then WKING else BKING) by (destruct w; reflexivity).
+  destruct (kingSq_spec_B q w BO) as (Hk64 & Hkp).
+  - exists t. split; [exact Ht64|]. change (getPiece q t) with (nthP sqsQ t). rewrite Et, V2, Ep, Emk. reflexivity.
+  - change (getPiece q (kingSq q w)) with (nthP sqsQ (kingSq q w)) in Hkp.
+    destruct (N.eq_dec (kingSq q w) t) as [E|E]; [exact E|]. exfalso.
+    set (s := kingSq q w) in *.
+    (* s is none of the four squares, or holds no king *)
+    destruct (N.eq_dec s k0) as [E0|E0]; [rewrite E0, V0 in Hkp; destruct w; discriminate|].
+    destruct (N.eq_dec s (if kside then k0 + 1 else k0 - 1)) as [E1'|E1'].
+    { assert (X : nthP sqsQ s = if w then WROOK else BROOK) by (rewrite E1'; exact V1). rewrite X in Hkp. destruct w; discriminate. }
+    destruct (N.eq_dec s (if kside then k0 + 3 else k0 - 4)) as [E3|E3].
+    { assert (X : nthP sqsQ s = EMPTY) by (rewrite E3; exact V3). rewrite X in Hkp. destruct w; discriminate. }
+    rewrite Et in E.
+    assert (Hsame : nthP sqsQ s = nthP sqs s).
+    { rewrite boardQ_castle. pose proof lenS as Hl.
+      destruct kside; rewrite !nthP_updN by (rewrite ?length_updN, Hl; lia);
+        repeat match goal with |- context [?a =? ?c] => destruct (N.eqb_spec a c); [exfalso; congruence|] end; reflexivity. }
+    rewrite Hsame in Hkp. apply E0.
+    destruct Hrev as [_ Hwf _ _ _].
+    assert (Hk0 : k0 < 64) by lia.
+    apply (king_unique p w s k0 Hwf Hk64 Hk0 Hkp).
+    change (getPiece p k0) with (nthP sqs k0). rewrite <- Hf. fold pc. rewrite Ep, Emk. reflexivity.
+Qed.
+
+Lemma not_pawn : isPawnPiece pc = false.
+Proof. rewrite Hpc. destruct w; reflexivity. Qed.
+
+(** the attack tests of the un-castle clause *)
+Lemma safe_Q :
+  sqAttackedT w q k0 (occupiedBB q) = false /\
+  sqAttackedT w q (if kside then k0 + 1 else k0 - 1) (occupiedBB q) = false.
+Proof.
+  pose proof (BOq zk EKZ p m Hrev MF) as BO. fold q in BO. pose proof k0_val as Hk.
+  rewrite !(sqAttacked_spec_B q w) by (try exact BO; destruct kside; lia).
+  change (squares q) with sqsQ.
+  destruct Q_vals as (V0 & V1 & V2 & V3). rewrite Hpc in V2.
+  pose proof HS as HS'. unfold CastleSpec in HS'. cbv zeta in HS'. destruct HS' as (_ & PK & _ & PR & PE & S4 & S5).
+  assert (AG : forall x y, (on_board x y = true -> sq_of x y <> k0 /\ sq_of x y <> (if kside then k0 + 1 else k0 - 1) /\
+                          sq_of x y <> (if kside then k0 + 2 else k0 - 2) /\ sq_of x y <> (if kside then k0 + 3 else k0 - 4)) ->
+                         at_ sqsQ x y = at_ sqs x y) by apply at_Q_other.
+  unfold k0 in *.
+  destruct w_cases as [Ew|Ew]; rewrite Ew in V0, V1, V2, V3, PK, PR, PE, S4, S5, AG |- *; unfold E1, E8 in *; destruct kside;
+    cbn [negb] in S4, S5 |- *.
+  - destruct PE as (P5 & P6).
+    apply (transfer_WK sqs sqsQ); auto;
+      try (apply (at_Q_val _ _ ltac:(lia)) in V0; exact V0); try (apply (at_Q_val _ _ ltac:(lia)) in V1; exact V1);
+      try (apply (at_Q_val _ _ ltac:(lia)) in V2; exact V2); try (apply (at_Q_val _ _ ltac:(lia)) in V3; exact V3).
+    intros x y Hc. apply AG. intro Hob. unfold on_board in Hob. rewrite !andb_true_iff, !Z.leb_le in Hob. unfold sq_of. lia.
+  - destruct PE as (P1 & P2 & P3).
+    apply (transfer_WQ sqs sqsQ); auto;
+      try (apply (at_Q_val _ _ ltac:(lia)) in V0; exact V0); try (apply (at_Q_val _ _ ltac:(lia)) in V1; exact V1);
+      try (apply (at_Q_val _ _ ltac:(lia)) in V2; exact V2); try (apply (at_Q_val _ _ ltac:(lia)) in V3; exact V3).
+    intros x y Hc. apply AG. intro Hob. unfold on_board in Hob. rewrite !andb_true_iff, !Z.leb_le in Hob. unfold sq_of. lia.
+  - destruct PE as (P5 & P6).
+    apply (transfer_BK sqs sqsQ); auto;
+      try (apply (at_Q_val _ _ ltac:(lia)) in V0; exact V0); try (apply (at_Q_val _ _ ltac:(lia)) in V1; exact V1);
+      try (apply (at_Q_val _ _ ltac:(lia)) in V2; exact V2); try (apply (at_Q_val _ _ ltac:(lia)) in V3; exact V3).
+    intros x y Hc. apply AG. intro Hob. unfold on_board in Hob. rewrite !andb_true_iff, !Z.leb_le in Hob. unfold sq_of. lia.
+  - destruct PE as (P1 & P2 & P3).
+    apply (transfer_BQ sqs sqsQ); auto;
+      try (apply (at_Q_val _ _ ltac:(lia)) in V0; exact V0); try (apply (at_Q_val _ _ ltac:(lia)) in V1; exact V1);
+      try (apply (at_Q_val _ _ ltac:(lia)) in V2; exact V2); try (apply (at_Q_val _ _ ltac:(lia)) in V3; exact V3).
+    intros x y Hc. apply AG. intro Hob. unfold on_board in Hob. rewrite !andb_true_iff, !Z.leb_le in Hob. unfold sq_of. lia.
+Qed.
+
+Theorem raw_castle : In m (revMoveList q).
+Proof.
+  pose proof (BOq zk EKZ p m Hrev MF) as BO. fold q in BO. pose proof k0_val as Hk.
+  pose proof (epQ_none zk p m Hrev MF not_pawn) as Eq. fold q in Eq.
+  unfold revMoveList. cbv zeta. rewrite Eq. change ((-1 =? -1)%Z) with true. cbv iota.
+  replace (genMovesNoUndoInfo q) with
+    (revPromoBlock w q (revPawnBlock w q (revKingBlock w q (revKnightBlock w q (revBishopBlock w q (revRookBlock w q (revQueenBlock w q [])))))))
+    by (symmetry; unfold q, w; apply (gen_unfold zk p m Hrev MF)).
+  apply revPromoBlock_mono, revPawnBlock_mono.
+  unfold revKingBlock. cbv zeta. rewrite kingSq_Q.
+  destruct Q_vals as (V0 & V1 & V2 & V3). destruct safe_Q as (A4 & A5).
+  pose proof Ht as Et. pose proof Hf as Ef.
+  assert (Hm : m = mkMove k0 t EMPTY).
+  { destruct (castle_N kside HS) as (Hm & _). rewrite Hm at 1. rewrite Et. reflexivity. }
+  assert (O0 : N.testbit (occupiedBB q) k0 = false) by (apply occQ_empty; exact V0).
+  assert (O3 : N.testbit (occupiedBB q) (if kside then k0 + 3 else k0 - 4) = false) by (apply occQ_empty; exact V3).
+  assert (G1' : getPiece q (if kside then k0 + 1 else k0 - 1) = myPiece w WROOK).
+  { change (getPiece q) with (nthP sqsQ). rewrite V1. destruct w; reflexivity. }
+  (* the queen-side clause also wants b1 / b8 empty: unchanged from P *)
+  assert (OB : kside = false -> N.testbit (occupiedBB q) (k0 - 3) = false).
+  { intro Ek. apply occQ_empty.
+    assert (Hsame : nthP sqsQ (k0 - 3) = nthP sqs (k0 - 3)).
+    { rewrite boardQ_castle, Ek. pose proof lenS as Hl. rewrite !nthP_updN by (rewrite ?length_updN, Hl; lia).
+      repeat match goal with |- context [?a =? ?c] => destruct (N.eqb_spec a c); [exfalso; lia|] end. reflexivity. }
+    rewrite Hsame. destruct (castle_N kside HS) as (_ & _ & _ & _ & HE). rewrite Ek in HE. apply HE. }
+  unfold k0 in *.
+  destruct w_cases as [Ew|Ew]; rewrite Ew in Et, Hm, O0, O3, G1', OB, A4, A5 |- *;
+    unfold E1, E8, G1, G8, C1, C8, F1, F8, D1, D8, H1, H8, A1, A8, B1, B8 in *;
+    destruct kside; rewrite Et;
+    change (4 + 1) with 5 in *; change (4 + 2) with 6 in *; change (4 + 3) with 7 in *;
+    change (4 - 1) with 3 in *; change (4 - 2) with 2 in *; change (4 - 3) with 1 in *; change (4 - 4) with 0 in *;
+    change (60 + 1) with 61 in *; change (60 + 2) with 62 in *; change (60 + 3) with 63 in *;
+    change (60 - 1) with 59 in *; change (60 - 2) with 58 in *; change (60 - 3) with 57 in *; change (60 - 4) with 56 in *.
+  - (* white O-O *)
+    apply revCastleClause_mono. unfold revCastleClause. rewrite G1', !N.eqb_refl. cbn [andb].
+    rewrite two_bits_empty, O0, O3, A4, A5. cbn [negb andb].
+    assert (HB : bit 4 < 2 ^ 64) by (vm_compute; reflexivity). apply (proj2 (revAdd_In _ _ _ _ _ HB)). right. exists 4. split; [rewrite bit_bits; reflexivity | rewrite Et in Hm; exact Hm].
+  - (* white O-O-O *)
+    unfold revCastleClause at 1. change (2 =? 6) with false. cbn [andb].
+    unfold revCastleClause. rewrite G1', !N.eqb_refl. cbn [andb].
+    rewrite three_bits_empty, O0, O3, (OB eq_refl), A4, A5. cbn [negb andb].
+    assert (HB : bit 4 < 2 ^ 64) by (vm_compute; reflexivity). apply (proj2 (revAdd_In _ _ _ _ _ HB)). right. exists 4. split; [rewrite bit_bits; reflexivity | rewrite Et in Hm; exact Hm].
+  - (* black O-O *)
+    apply revCastleClause_mono. unfold revCastleClause. rewrite G1', !N.eqb_refl. cbn [andb].
+    rewrite two_bits_empty, O0, O3, A4, A5. cbn [negb andb].
+    assert (HB : bit 60 < 2 ^ 64) by (vm_compute; reflexivity). apply (proj2 (revAdd_In _ _ _ _ _ HB)). right. exists 60. split; [rewrite bit_bits; reflexivity | rewrite Et in Hm; exact Hm].
+  - (* black O-O-O *)
+    unfold revCastleClause at 1. change (58 =? 62) with false. cbn [andb].
+    unfold revCastleClause. rewrite G1', !N.eqb_refl. cbn [andb].
+    rewrite three_bits_empty, O0, O3, (OB eq_refl), A4, A5. cbn [negb andb].
+    assert (HB : bit 60 < 2 ^ 64) by (vm_compute; reflexivity). apply (proj2 (revAdd_In _ _ _ _ _ HB)). right. exists 60. split; [rewrite bit_bits; reflexivity | rewrite Et in Hm; exact Hm].
+Qed.
+
+End Raw.
+
 End Castle.
+
+(** * Completeness for castling *)
+Theorem complete_castle zk (EKZ : emptyKeysZero zk) p m incl :
+  WFrev zk p ->
+  (incl = true \/ epSquare p = (-1)%Z \/
+   (isPawnPiece (getPiece p (mfrom m)) = true /\ Z.of_N (mto m) = epSquare p)) ->
+  In m (castleMoves (whiteMove p) p (occupiedBB p) (kingSq p (whiteMove p)) []) -> CompleteAt zk p m incl.
+Proof.
+  intros Hrev Hinc Hin. pose proof (wr_wf zk p Hrev) as Hwf'.
+  assert (Hps : In m (pseudoLegalMoves p)).
+  { unfold pseudoLegalMoves, pseudoLegalMovesT. cbv zeta.
+    apply (pawnBlock_app p Hwf'). left. apply (knightBlock_app p Hwf'). left. apply (castleMoves_app p). right. exact Hin. }
+  destruct (pseudo_move_good p Hwf' m Hps) as (_ & Hok & _).
+  apply (castleMoves_spec p Hwf' m) in Hin.
+  destruct (castle_parse p m Hin) as (kside & HS).
+  pose proof (castle_moveFacts zk p m Hrev Hok kside HS) as MF.
+  apply (complete_given_raw zk EKZ p m incl Hrev MF Hinc).
+  apply (raw_castle zk EKZ p m Hrev Hok kside HS).
+Qed.
